@@ -224,6 +224,29 @@ for api in sorted(os.listdir(root)):
                         out.setdefault("shadowed", []).append(f"{name}: class statement repeated for {dup}")
                 except BaseException as e:
                     out["import_errors"][name] = f"{type(e).__name__}: {e}"
+# explicit float64 defaults as the generated classes carry them (type and exact value), and the bytes of
+# an instance built from defaults alone where every field has one
+out["float_defaults"], out["default_bytes"] = {}, {}
+try:
+    import io as _io
+    from kio.serial import entity_writer as _ew
+    for name in sorted(out["modules"]):
+        m = importlib.import_module(name)
+        for c in [c for c in vars(m).values() if isinstance(c, type) and dataclasses.is_dataclass(c)
+                  and getattr(c, "__module__", None) == name]:
+            fl = [f for f in dataclasses.fields(c) if f.metadata.get("kafka_type") == "float64"
+                  and f.default is not dataclasses.MISSING]
+            for f in fl:
+                out["float_defaults"][f"{name}:{c.__name__}.{f.name}"] = [type(f.default).__name__, float(f.default).hex()]
+            if fl and all(f.default is not dataclasses.MISSING or f.default_factory is not dataclasses.MISSING
+                          for f in dataclasses.fields(c)):
+                try:
+                    b = _io.BytesIO(); _ew(c)(b, c())
+                    out["default_bytes"][f"{name}:{c.__name__}"] = b.getvalue().hex()
+                except BaseException as e:
+                    out["default_bytes"][f"{name}:{c.__name__}"] = f"error {type(e).__name__}: {e}"
+except BaseException as e:
+    out["float_defaults_error"] = f"{type(e).__name__}: {e}"
 # instances of the generated top-level classes through the real writer and reader
 out["instances"] = []
 try:
